@@ -132,6 +132,7 @@ type HarnessResult struct {
 	Errors       []string
 	Instrs       int
 	BranchQueries int
+	BranchSecs float64
 	Funcs        []string
 	Secs         float64
 	Observed     []Observation
@@ -215,6 +216,7 @@ func RunHarness(l *Loaded, fn *ssa.Function, cfg HarnessConfig) (res *HarnessRes
 	res.Obligations = e.Obligations
 	res.Instrs = e.Instrs
 	res.BranchQueries = e.BranchQueries
+	res.BranchSecs = e.BranchSecs
 	res.Observed = e.Observed
 	res.Defs = len(e.Defs)
 	for f := range e.FuncsSeen {
